@@ -419,6 +419,45 @@ func (c *Ctx) damageClasses(li, n int) {
 	}
 	// separators
 	s := join(toks)
+	// tolerance features a validator must NOT have: every token of a VALID sentence shortened to its first
+	// 3/4/5 letters (a unique-prefix lookup accepts), upper-cased / title-cased (a case-folding lookup accepts —
+	// BIP39 lists are lower case), with punctuation or invisible characters attached that a trimming lookup
+	// would drop; one token at a time and all tokens at once
+	respell := []func(w string) string{
+		func(w string) string { r := []rune(w); return string(r[:min(3, len(r))]) },
+		func(w string) string { r := []rune(w); return string(r[:min(4, len(r))]) },
+		func(w string) string { r := []rune(w); return string(r[:min(5, len(r))]) },
+		func(w string) string { r := []rune(w); return string(r[:len(r)-1]) },
+		strings.ToUpper,
+		func(w string) string { r := []rune(w); return strings.ToUpper(string(r[:1])) + string(r[1:]) },
+		func(w string) string { return w + "." },
+		func(w string) string { return w + "," },
+		func(w string) string { return "\"" + w + "\"" },
+		func(w string) string { return w + "\u200b" },
+		func(w string) string { return "\ufeff" + w },
+		func(w string) string { return w + "\u00ad" },
+		func(w string) string { return w + "s" },
+	}
+	for ri, f := range respell {
+		if c.quick && (ri+li+n/4)%3 != int(c.rep.Seed%3) {
+			continue
+		}
+		one := append([]string(nil), toks...)
+		p := c.rng.Intn(len(one))
+		one[p] = f(one[p])
+		c.chk("tolerance:one-token", l, join(one))
+		all := make([]string, len(toks))
+		for i, w := range toks {
+			all[i] = f(w)
+		}
+		c.chk("tolerance:all-tokens", l, join(all))
+	}
+	// invisible characters at the very ends of an otherwise valid sentence (a byte order mark from a text file,
+	// zero-width and directional marks from copy and paste): not White_Space, so the token they stick to is unknown
+	for _, inv := range []string{"\ufeff", "\u200b", "\u2060", "\u200e", "\u00ad", "\u200d", "\u180e", "\x00"} {
+		c.chk("invisible-at-ends", l, inv+s)
+		c.chk("invisible-at-ends", l, s+inv)
+	}
 	c.chk("sep-leading", l, " "+s)
 	c.chk("sep-trailing", l, s+" ")
 	c.chk("sep-doubled", l, strings.Replace(s, " ", "  ", 1))
@@ -772,6 +811,22 @@ func propC08(c *Ctx) {
 				r.violate(Violation{Kind: "property", Class: "index-sweep", Op: fmt.Sprintf("chk %d %s", l, impl[3:]), Impl: got,
 					Detail: fmt.Sprintf("validation does not map word %d back to index %d", v, v)})
 			}
+		}
+		// the longest sentences the language can produce (every group the longest word by bytes / by code
+		// points, a mix of the six longest): what index i emits there must validate, i.e. map back to i — a
+		// length bound derived from another spelling of the words, or from another language, cuts exactly these
+		for _, n := range []int{24, 28, 32} {
+			c.extremeWordEntropies(li, n, func(class string, e []byte) {
+				impl := implEnc(l, e)
+				r.count("extreme-words:" + class)
+				if !strings.HasPrefix(impl, "ok ") {
+					return
+				}
+				if got := implChk(l, string(unhx(impl[3:]))); got != "ok" {
+					r.violate(Violation{Kind: "property", Class: "extreme-words:" + class, Op: fmt.Sprintf("chk %d %s", l, impl[3:]), Impl: got,
+						Detail: "the sentence NewMnemonicByEntropy emits for " + hx(e) + " (the longest words of the list) is not accepted: validation does not map these words back to their indices"})
+				}
+			})
 		}
 		// the tables after REJECTED validations whose unknown token is a typo of a list word (a suffix, a
 		// changed last letter, a prefix): an error path that builds suggestions in place, or caches near
